@@ -36,7 +36,7 @@ func RunTrace(tr *Trace, keepConcrete bool) (*Violation, *Engine) {
 
 // Shrink minimises a failing trace: drop steps (ddmin), simplify the plan, zero the raw choice values,
 // keeping only candidates that still fail with the same violation class.
-func Shrink(tr *Trace, sig string, maxRuns int, deadline time.Time) *Trace {
+func Shrink(tr *Trace, sig string, maxRuns int, deadline time.Time, keep func(*Trace, *Violation) bool) *Trace {
 	runs := 0
 	fails := func(c *Trace) bool {
 		if runs >= maxRuns || time.Now().After(deadline) {
@@ -44,7 +44,11 @@ func Shrink(tr *Trace, sig string, maxRuns int, deadline time.Time) *Trace {
 		}
 		runs++
 		v, _ := RunTrace(c, false)
-		return v != nil && v.Signature() == sig
+		if v == nil || v.Signature() != sig {
+			return false
+		}
+		// an attribution that rests on differential re-execution must survive the minimisation too
+		return keep == nil || keep(c, v)
 	}
 	cur := cloneTrace(tr)
 	// 1. cut after the failing step
@@ -98,7 +102,7 @@ func Shrink(tr *Trace, sig string, maxRuns int, deadline time.Time) *Trace {
 	for i := range cur.Plan.Types {
 		idx := i
 		try(func(p *Plan) {
-			if p.Types[idx].Kind != "rel" && p.Types[idx].Kind != "ptr" && p.Types[idx].Kind != "ptrrel" && p.Types[idx].Kind != "array" {
+			if k := p.Types[idx].Kind; k != "rel" && k != "ptr" && k != "ptrrel" && k != "array" && k != "relptr" && k != "relnamed" {
 				p.Types[idx].Kind, p.Types[idx].Size, p.Types[idx].Align = "bytes", 1, 0
 			}
 		})
